@@ -45,3 +45,26 @@ Lemma src_view_rows_tie (len swap_interval : nat) :
   src_swaps_view_rows (Z.of_nat len) (Z.of_nat swap_interval) = Z.of_nat (len / swap_interval)
   /\ src_acceptance_view_rows (Z.of_nat len) (Z.of_nat swap_interval) = Z.of_nat (len / swap_interval).
 Proof. unfold src_swaps_view_rows, src_acceptance_view_rows. now rewrite of_nat_div. Qed.
+
+(** scratch rows: [ChainData.__setitem__] extends by [index + 1 - len] when the index is beyond the
+    data ([sc_set]), [set_len] grows by [n - len] exactly when [len < n] ([sc_setlen]) *)
+Lemma src_setitem_extend_tie {T} (l : scratch T) (i : nat) (v : T) : (length l <= i)%nat ->
+  Z.of_nat (length (sc_set l i v)) = Z.of_nat (length l) + src_setitem_extend (Z.of_nat i) (Z.of_nat (length l)).
+Proof.
+  intros Hle. unfold sc_set, src_setitem_extend.
+  replace (i <? length l)%nat with false by (symmetry; apply Nat.ltb_ge; exact Hle).
+  rewrite !app_length, repeat_length. cbn [length]. lia.
+Qed.
+
+Lemma src_set_len_tie {T} (l : scratch T) (n : nat) :
+  src_set_len_grows (Z.of_nat n) (Z.of_nat (length l)) = (length l <? n)%nat
+  /\ ((length l < n)%nat ->
+      Z.of_nat (length (sc_setlen l n)) = Z.of_nat (length l) + src_set_len_amount (Z.of_nat n) (Z.of_nat (length l)))
+  /\ ((n <= length l)%nat -> sc_setlen l n = l).
+Proof.
+  unfold src_set_len_grows, src_set_len_amount, sc_setlen. split; [|split].
+  - destruct (Nat.ltb_spec (length l) n); destruct (Z.ltb_spec (Z.of_nat (length l)) (Z.of_nat n)); try lia; reflexivity.
+  - intros Hlt. replace (length l <? n)%nat with true by (symmetry; apply Nat.ltb_lt; exact Hlt).
+    rewrite app_length, repeat_length. lia.
+  - intros Hle. replace (length l <? n)%nat with false by (symmetry; apply Nat.ltb_ge; exact Hle). reflexivity.
+Qed.
